@@ -145,6 +145,7 @@ func (e *Engine) classify(st *State, bad *Term, label, detail string, stack []st
 	// (1) a violation outside every listed finding?
 	if r := e.solver.Check(append(append([]*Term(nil), base...), Not(anyW))); r == Sat {
 		model := e.solver.Values(TS.vars)
+		candidateHits(e.solver, st, model)
 		e.solver.Pop()
 		e.violations = append(e.violations, &Violation{Label: label, State: st.clone(), Model: model, Stack: stack, Detail: detail})
 	} else if r == Unknown {
@@ -158,6 +159,7 @@ func (e *Engine) classify(st *State, bad *Term, label, detail string, stack []st
 		}
 		if r := e.solver.Check(append(append([]*Term(nil), base...), w)); r == Sat {
 			model := e.solver.Values(TS.vars)
+			candidateHits(e.solver, st, model)
 			e.solver.Pop()
 			e.violations = append(e.violations, &Violation{Label: label, State: st.clone(), Model: model, Stack: stack, Detail: detail, Known: k.ID})
 		}
@@ -168,6 +170,7 @@ func (e *Engine) record(st *State, conj []*Term, label, detail string, stack []s
 	var model map[string]*big.Int
 	if r := e.solver.Check(conj); r == Sat {
 		model = e.solver.Values(TS.vars)
+		candidateHits(e.solver, st, model)
 		e.solver.Pop()
 	} else {
 		e.unsupported["could not re-derive a model for violation "+label]++
